@@ -125,7 +125,8 @@ class CyclicCodeEncoder(SystematicLinearBlockCodeEncoder):
 
         # Extract the parity submatrix for systematic encoding
         k, n = self._dimension, self._length
-        parity_submatrix = generator_matrix[:, k:n] if information_set == "left" else generator_matrix[:, 0 : n - k]
+        # The rows built above hold the parity bits in the low-order positions [0, n-k) for every layout
+        parity_submatrix = generator_matrix[:, 0 : n - k]
         super().__init__(parity_submatrix=parity_submatrix, information_set=information_set, **kwargs)
 
         # Register additional buffers specific to cyclic codes
@@ -458,7 +459,7 @@ class CyclicCodeEncoder(SystematicLinearBlockCodeEncoder):
         # the check matrix is H = [P^T | I_(n-k)]
         identity_part = torch.eye(self._redundancy, dtype=torch.float32, device=self.generator_matrix.device)
 
-        if self.information_set == "left":
+        if self._info_set_config == "left":
             # For 'left' information set, G = [I_k | P]
             parity_part = self.generator_matrix[:, self._dimension :].T
             # H = [P^T | I_m]
